@@ -572,7 +572,7 @@ class Translator:
                 raise Unsupported('exc call inside loop')
             bodytxt = self.block_pure(f, s.body, env2,
                                       lambda e_: tup(carried) if carried else '()',
-                                      set(carried) | names_in(s.body))
+                                      set(carried) | live)
             pat = tup(carried) if carried else '_'
             envk = dict(env)
             envk.update(types)
